@@ -190,7 +190,8 @@ func c06sRun(t *testing.T, hist string) (res *c04Result) {
 				out = rec.outcomes[len(rec.outcomes)-1]
 			}
 			c.obs = append(c.obs, "P="+cls+"/"+out)
-			if err != nil {
+			if err != nil && (strings.Contains(out, "busy") || strings.Contains(out, "error")) {
+				// the snapshot failed because its checkpoint failed
 				after := c.stagedWALs()
 				if strings.Join(after, ",") != strings.Join(staged, ",") {
 					c.violate("store:segment-left-after-failed-checkpoint", "staging-directory-changed",
@@ -252,6 +253,8 @@ var c06sDirected = []string{
 	"wrwPsPwP",   // partial (reader in the middle of the WAL)
 	"WrWPswPwP",  // partial with page-heavy writes
 	"wrPswrPswP", // two resets in a row
+	"wrPwrsPwsP", // all moved but not truncated twice in a row, then an appended write
+	"wrPwrsPswP", // ... then a reset
 }
 
 func TestVerif_C06_store(t *testing.T) {
